@@ -907,6 +907,116 @@ pub fn long_lived_reader(r: &mut Report, seed: u64) {
     }
 }
 
+/// A slow path to the only holder. One server stores the value; the datagrams it sends to the reader take long:
+/// over a second during the reader's first lookups (those answers come after the request timed out - the reads
+/// are not judged, but the node's round-trip estimate learns from them), then 0.55 .. 1.1 s. During every judged
+/// read the reader's adaptive request timeout is read at every iteration of its loop (snapshot hook) and the
+/// request/answer times are taken from the datagrams; if, by that timeline, the holder's answer arrived while its
+/// request was younger than the timeout in force, the value was delivered in time and the read must find it.
+pub fn slow_holder_scenario(r: &mut Report, seed: u64) {
+    use crate::krpc::Krpc;
+    use std::sync::atomic::{AtomicU64, Ordering};
+    use std::sync::{Arc, Mutex};
+    r.eval();
+    let mut rng = Rng::new(seed);
+    let w = World::with_cfg(seed, NetCfg { lat_min: MS, lat_max: 20 * MS, random_ties: true }, TraceLevel::Off);
+    let kind = rng.usize(2);
+    let s = w.spawn(NodeSpec::server(std::net::Ipv4Addr::new(10, 60, 0, 1), &[])).expect("server");
+    let wr = w.spawn(NodeSpec::client(std::net::Ipv4Addr::new(10, 60, 0, 2), &[s.addr])).expect("writer");
+    w.block_on(wr.adht.bootstrapped(), 60 * SEC);
+    let rd = w.spawn(if rng.bool() { NodeSpec::client(std::net::Ipv4Addr::new(10, 60, 0, 3), &[s.addr]) } else { NodeSpec::server(std::net::Ipv4Addr::new(10, 60, 0, 3), &[s.addr]) }).expect("reader");
+    w.block_on(rd.adht.bootstrapped(), 60 * SEC);
+    let kind_name = ["immutable", "mutable"][kind];
+    let case = json!({"class":"slow-holder","seed":seed.to_string(),"kind":kind_name});
+    let signer = SigningKey::from_bytes(&rng.array::<32>());
+    let value = rng.blob(1, 200);
+    let item = MutableItem::new(&signer, &value, 7, None);
+    let put_ok = match kind {
+        0 => w.block_on(wr.adht.put_immutable(&value), 60 * SEC).map(|x| x.is_ok()).unwrap_or(false),
+        _ => w.block_on(wr.adht.put_mutable(item.clone(), None), 60 * SEC).map(|x| x.is_ok()).unwrap_or(false),
+    };
+    r.count("slow_holder_scenarios");
+    if !put_ok {
+        r.count("puts_not_ok");
+        return;
+    }
+    // the slow path, and the log of the reader's exchanges with the holder
+    let delay = Arc::new(AtomicU64::new(0));
+    let log: Arc<Mutex<Vec<Exchange>>> = Default::default();
+    let (d2, l2, s_addr, r_addr) = (delay.clone(), log.clone(), s.addr, rd.addr);
+    w.set_fault(Some(Box::new(move |info: &SendInfo| {
+        let k = Krpc::parse(info.bytes)?;
+        let mut l = l2.lock().unwrap_or_else(|e| e.into_inner());
+        if info.from == r_addr && info.to == s_addr && k.y == b'q' {
+            l.push(Exchange { tid: k.t.clone(), to: info.to, name: k.q.clone().unwrap_or_default(), target: k.target(), sent: info.now, answered: None });
+            None
+        } else if info.from == s_addr && info.to == r_addr && k.y != b'q' {
+            let extra = d2.load(Ordering::SeqCst);
+            if let Some(e) = l.iter_mut().rev().find(|e| e.tid == k.t && e.answered.is_none()) {
+                e.answered = Some(info.now + info.latency + extra);
+            }
+            Some(vec![(info.bytes.to_vec(), info.latency + extra)])
+        } else {
+            None
+        }
+    })));
+    let target = if kind == 0 { Id::from(crate::sha1::immutable_target(&value)) } else { *item.target() };
+    let key = signer.verifying_key().to_bytes();
+    let reads = 3 + rng.usize(6);
+    let mut judged = 0u64;
+    for k in 0..reads {
+        // the first one or two answers come after the request timed out
+        let d = if k < 1 + (seed % 2) as usize { (1100 + rng.below(1200)) * MS } else { (550 + rng.below(550)) * MS };
+        delay.store(d, Ordering::SeqCst);
+        let mark = log.lock().unwrap_or_else(|e| e.into_inner()).len();
+        let a = rd.adht.clone();
+        let (found, mut line) = if kind == 0 {
+            let mut task = Task::new(w.now(), async move { a.get_immutable(target).await });
+            let (_, line) = run_until_sampling_timeout(&w, &rd, 120 * SEC, |w| task.poll(w.now()));
+            (task.result.take().map(|v| v.map(|v| v[..] == value[..]).unwrap_or(false)), line)
+        } else {
+            let mut task = Task::new(w.now(), async move { a.get_mutable(&key, None, None).collect::<Vec<_>>().await });
+            let (_, line) = run_until_sampling_timeout(&w, &rd, 120 * SEC, |w| task.poll(w.now()));
+            (task.result.take().map(|items| items.iter().any(|i| i.seq() == 7 && i.value() == &value[..])), line)
+        };
+        r.count("slow_holder/reads");
+        let ex = log.lock().unwrap_or_else(|e| e.into_inner())[mark..].iter().rev().find(|e| e.name == "get" && e.target == Some(*target.as_bytes())).cloned();
+        // (the read may have returned before the holder's answer arrives: the timeline has to cover that moment)
+        if let Some(Exchange { answered: Some(t_a), .. }) = &ex {
+            extend_sampling_until(&w, &rd, *t_a, &mut line);
+        }
+        let in_time = match &ex {
+            Some(Exchange { sent, answered: Some(t_a), .. }) => alive_until_answered(&line, *sent, *t_a),
+            _ => false,
+        };
+        if in_time {
+            judged += 1;
+            r.count("slow_holder/reads_with_the_holders_answer_inside_the_adapted_timeout");
+            if found != Some(true) {
+                let e = ex.expect("exchange");
+                r.violation(
+                    &format!("read/slow-holder/not-found/{kind_name}"),
+                    "the only holder answered the reader within the reader's own (adapted) request timeout - read at every iteration of its loop -, yet the read did not find the value a put had returned Ok for",
+                    case.clone(),
+                    json!({"read": k, "completed": found.is_some(), "round_trip_ms": (e.answered.unwrap_or(0) - e.sent) / MS, "smallest_request_timeout_meanwhile_ms": line.iter().filter(|(t, _)| *t >= e.sent && *t <= e.answered.unwrap_or(0)).map(|(_, to)| to / MS).min()}),
+                );
+                break;
+            }
+        }
+        // let the late answer arrive before the next read
+        w.run_for(3 * SEC);
+    }
+    if judged > 0 {
+        r.nontrivial(mix(seed, judged));
+    }
+    w.set_fault(None);
+    drop((s, wr, rd));
+    w.shutdown();
+    for (thread, loc, msg) in crate::take_panics() {
+        r.violation(&format!("panic/{loc}"), &format!("thread {thread} panicked: {msg}"), case.clone(), json!({}));
+    }
+}
+
 fn gen_params(rng: &mut Rng, quick: bool) -> Params {
     let servers = *rng.pick(&[1usize, 2, 3, 4, 5, 6, 8, 10, 12, 16, 20]);
     let clients = *rng.pick(&[0usize, 0, 1, 2, 5, 10, if quick { 12 } else { 30 }]);
@@ -918,6 +1028,10 @@ pub fn run(a: &Args) -> Report {
     if let Some(path) = &a.replay {
         let v: Value = serde_json::from_str(&std::fs::read_to_string(path).unwrap_or_default()).unwrap_or_default();
         let c = &v["case"];
+        if c["class"] == "slow-holder" {
+            slow_holder_scenario(&mut r, c["seed"].as_str().and_then(|s| s.parse().ok()).unwrap_or(1));
+            return r;
+        }
         if c["class"] == "late-joiner" {
             late_joiner_scenario(&mut r, c["seed"].as_str().and_then(|s| s.parse().ok()).unwrap_or(1));
             return r;
@@ -983,6 +1097,8 @@ pub fn run(a: &Args) -> Report {
         let s = rng.u64();
         super::guarded(&mut r, json!({"class":"own-put-window","seed":s.to_string()}), |r| own_put_window_scenario(r, s));
         r.count("own_put_window_scenarios");
+        let s = rng.u64();
+        super::guarded(&mut r, json!({"class":"slow-holder","seed":s.to_string()}), |r| slow_holder_scenario(r, s));
     }
     r
 }
